@@ -510,7 +510,7 @@ func classOf(b *qb, hdr string) string {
 	if b.hazard != "" {
 		return b.hazard
 	}
-	for _, f := range []string{"cte", "subquery", "fn-from", "join", "db-qualified", "quoted-name", "comment"} {
+	for _, f := range []string{"fn-nested", "cte", "subquery", "fn-from", "join", "db-qualified", "quoted-name", "comment"} {
 		if b.feats[f] {
 			return f
 		}
@@ -708,7 +708,7 @@ func (e *env) cacheProbe(r *vh.Rand, dsID string) {
 }
 
 var hazards = []string{"fastpath-partial", "with-newline", "rp-text", "cte-shadow", "cte-quoted", "distinct-from", "comma-join",
-	"mixed-case", "quoted-upper", "table-qualified-col", "tablefunc", "cte", "soup"}
+	"mixed-case", "quoted-upper", "table-qualified-col", "tablefunc", "cte", "fn-nested", "soup"}
 
 func main() {
 	oneSQL := flag.String("sql", os.Getenv("C16_SQL"), "replay: run only this statement")
